@@ -173,3 +173,60 @@ def stage_parser(ctx: Ctx) -> Func:
                     c["stage_parser"] = cand[0]
                     return cand[0]
     raise AnchorError("role stage-list-parser (the function that receives the dds_stages option) not found")
+
+
+def _record_fields(ctx: Ctx, qname: str) -> Dict[str, str]:
+    """field name -> annotation text of a NamedTuple / dataclass style record of the package"""
+    c = ctx.prog.cls(qname)
+    if c is None:
+        raise AnchorError(f"{qname} not found")
+    out: Dict[str, str] = {}
+    for st in c.node.body:
+        if isinstance(st, ast.AnnAssign) and isinstance(st.target, ast.Name):
+            out[st.target.id] = unparse(st.annotation, 200)
+    return out
+
+
+def path_map_field(ctx: Ctx) -> str:
+    """the field of the evaluation-context record that holds the evaluation's (path -> signature) map (`requested_paths`): the field
+    annotated as a mapping from DDSPath to PyHash"""
+    c = _cache(ctx)
+    if "path_map_field" not in c:
+        fs = [k for k, a in _record_fields(ctx, "dds.structures.EvalContext").items() if "DDSPath" in a and "PyHash" in a]
+        if len(fs) != 1:
+            raise AnchorError("role path-map field of dds.structures.EvalContext (annotated Dict[DDSPath, PyHash]) not found")
+        c["path_map_field"] = fs[0]
+    return c["path_map_field"]  # type: ignore
+
+
+def _ctor_attr(ctx: Ctx, cls_q: str, wanted) -> str:
+    """the attribute that the constructor of the class binds to the parameter whose annotation satisfies `wanted`"""
+    k = ctx.prog.cls(cls_q)
+    init = k.methods.get("__init__") if k is not None else None
+    if init is None:
+        raise AnchorError(f"{cls_q}.__init__ not found")
+    a = init.node.args
+    ann = {x.arg: unparse(x.annotation, 200) if x.annotation is not None else "" for x in a.posonlyargs + a.args + a.kwonlyargs}
+    params = [p for p, t in ann.items() if wanted(t)]
+    for n in init.own_nodes():
+        if isinstance(n, (ast.Assign, ast.AnnAssign)) and isinstance(n.value, ast.Name) and n.value.id in params:
+            t = n.targets[0] if isinstance(n, ast.Assign) else n.target
+            if isinstance(t, ast.Attribute) and isinstance(t.value, ast.Name) and t.value.id == "self":
+                return t.attr
+    raise AnchorError(f"attribute of {cls_q} bound to the wanted constructor parameter not found")
+
+
+def resolved_refs_attr(ctx: Ctx) -> str:
+    """attribute of the per-evaluation analysis context that maps the loaded / produced paths to signatures (`resolved_references`)"""
+    c = _cache(ctx)
+    if "resolved_refs_attr" not in c:
+        c["resolved_refs_attr"] = _ctor_attr(ctx, "dds._eval_ctx.EvalMainContext", lambda t: "DDSPath" in t and "PyHash" in t)
+    return c["resolved_refs_attr"]  # type: ignore
+
+
+def accepted_attr(ctx: Ctx) -> str:
+    """attribute of the per-evaluation analysis context that holds the accepted packages (`whitelisted_packages`)"""
+    c = _cache(ctx)
+    if "accepted_attr" not in c:
+        c["accepted_attr"] = _ctor_attr(ctx, "dds._eval_ctx.EvalMainContext", lambda t: "Package" in t)
+    return c["accepted_attr"]  # type: ignore
